@@ -85,6 +85,14 @@ def scripted():
                 edits.append(base0 + mid + [{"a": "pendP"}, {"a": "startP"}] + redo + [{"a": "finishP", "ok": okp}, {"a": "clean"},
                              {"a": "succeed", "s": "A"}, {"a": "start", "s": "A"}, {"a": "succeed", "s": "A"}, {"a": "start", "s": "B"},
                              {"a": "succeed", "s": "B"}, {"a": "clean"}])
+    # the creator re-defines a step while its job is in flight (F25)
+    for newinp in ([], ["x"]):
+        for tail in ([{"a": "succeed", "s": "A"}, {"a": "start", "s": "A"}, {"a": "succeed", "s": "A"}],
+                     [{"a": "start", "s": "A"}, {"a": "succeed", "s": "A"}, {"a": "succeed", "s": "A"}],
+                     [{"a": "finishP", "ok": True}, {"a": "succeed", "s": "A"}, {"a": "clean"}, {"a": "start", "s": "A"}, {"a": "succeed", "s": "A"}]):
+            edits.append([{"a": "startP"}, {"a": "static"}, {"a": "define", "s": "A", "inp": ["x"] if not newinp else []},
+                          {"a": "finishP", "ok": True}, {"a": "start", "s": "A"}, {"a": "pendP"}, {"a": "startP"}, {"a": "static"},
+                          {"a": "define", "s": "A", "inp": newinp}] + tail)
     return edits
 
 
@@ -200,6 +208,8 @@ def run(report, tier: str, seed: int, prop: str, verbose=False) -> dict:
     stats["states"] += int(m.group(2)) if m else 0
     rc, out, secs = tlc.run_tlc("Recycle.tla", "RecycleModelStrict.cfg", workers=8, timeout=1800)
     stats["strict_invariant_violated_in_model"] = "Invariant DoneMeansInputsDeclared is violated" in out
+    rc, out, secs = tlc.run_tlc("Recycle.tla", "RecycleModelF25.cfg", workers=8, timeout=1800)
+    stats["f25_found_by_model"] = bool(re.search(r"Invariant (OneJobPerStep|DirectorSurvives) is violated", out))
     rng = random.Random(seed * 37 + 11)
     cases = scripted() if tier == "thorough" else rng.sample(scripted(), 40)
     for _ in range({"quick": 150, "thorough": 3000}[tier]):
@@ -247,6 +257,12 @@ def run(report, tier: str, seed: int, prop: str, verbose=False) -> dict:
         stats["actions"] += sum(enabled)
         for k, (e, gst) in enumerate(zip(exp, got)):
             want = norm(e)
+            if e.get("crash"):
+                # the specification says this action kills the director (second completion, F25)
+                if "error" in gst and "ConsistencyError" in gst["error"]:
+                    stats["crashes_agreed"] = stats.get("crashes_agreed", 0) + 1
+                    break
+                gst = {"error": "specification expects ConsistencyError, code went on"} if "error" not in gst else gst
             if "error" in gst or gst != want:
                 nbad += 1
                 diff = {"error": gst["error"]} if "error" in gst else \
